@@ -139,17 +139,27 @@ class State:
         self.loads, self.stores = [], []
         self.written_regs = set()
         self.tag = "s"
+        self.idx0_is_zero = False
 
     def cell(self, txt):
         m = MEM_RE.fullmatch(txt.strip())
-        if not m:
-            raise Undecided("addressing form not modelled: %r" % txt)
-        base, scale, idx, disp = m.group(1), int(m.group(2)), m.group(3), int(m.group(4) or 0)
-        if scale != 8 or disp % 8:
-            raise Undecided("non 8-byte-cell access %r" % txt)
-        if base in self.dirty or idx in self.dirty or self.delta[base] != 0:
-            raise Undecided("address register modified by a non inc/dec instruction: %r" % txt)
-        return (base, idx, self.delta[idx] + disp // 8)
+        if m:
+            base, scale, idx, disp = m.group(1), int(m.group(2)), m.group(3), int(m.group(4) or 0)
+            if scale != 8 or disp % 8:
+                raise Undecided("non 8-byte-cell access %r" % txt)
+            if base in self.dirty or idx in self.dirty or self.delta[base] != 0:
+                raise Undecided("address register modified by a non inc/dec instruction: %r" % txt)
+            return (base, idx, self.delta[idx] + disp // 8)
+        m = MEM0_RE.fullmatch(txt.strip())
+        if m:
+            # no index register: an absolute cell of the operand; only meaningful when the index register's start value is the concrete 0
+            base, disp = m.group(1), int(m.group(2) or 0)
+            if disp % 8 or base in self.dirty or self.delta[base] != 0:
+                raise Undecided("non 8-byte-cell access %r" % txt)
+            if not self.idx0_is_zero:
+                raise Undecided("absolute operand access %r in a run whose index start value is symbolic" % txt)
+            return (base, "idx", disp // 8)
+        raise Undecided("addressing form not modelled: %r" % txt)
 
     def read(self, c):
         if c not in self.mem:
@@ -160,6 +170,7 @@ class State:
 
 
 MEM_RE = re.compile(r"qword ptr \[\{(\w+)\}\s*\+\s*(\d+)\*\{(\w+)\}(?:\s*\+\s*(\d+))?\]")
+MEM0_RE = re.compile(r"qword ptr \[\{(\w+)\}(?:\s*\+\s*(\d+))?\]")
 REG_RE = re.compile(r"\{(\w+)\}")
 
 
@@ -314,8 +325,9 @@ def check_loop_fn(path, fname, op, tier, results, use_cvc5):
             if n not in byname or byname[n]["kind"] != kind or byname[n]["expr"] != expr:
                 raise Undecided("operand binding of {%s} is not `%s(..) %s`" % (n, kind, expr))
         pre, lab, body, br, post = split_loop(template)
-        if [l.strip() for l in pre] != ["clc"]:
-            raise Undecided("loop preamble is not a single clc")
+        if not pre or pre[0].strip() != "clc":
+            raise Undecided("loop preamble does not start with clc")
+        simple_pre = [l.strip() for l in pre] == ["clc"]
         if not post or post[0].strip() != "setc {c}":
             raise Undecided("epilogue does not start with setc {c}")
     except Undecided as e:
@@ -336,7 +348,10 @@ def check_loop_fn(path, fname, op, tier, results, use_cvc5):
     verdict = {"HOLDS": "HOLDS", "CEX": "CANDIDATE", "UNDECIDED": "UNDECIDED"}
 
     # ---- B1: inductive step (one pass through the body from an arbitrary state at the label)
+    b1_results_start = len(results)
     try:
+        if not simple_pre:
+            raise Undecided("the loop carries register state across iterations (preamble: %r): the inductive step would need a loop invariant; only the bounded runs decide this tree" % [l.strip() for l in pre[1:]])
         st = fresh_state("i")
         idx0, size0, cf0 = st.regs["idx"], st.regs["size"], st.cf
         for line in body:
@@ -386,6 +401,7 @@ def check_loop_fn(path, fname, op, tier, results, use_cvc5):
         try:
             st = fresh_state("e%d" % nblk, concrete_size=nblk)
             st.regs["idx"] = z3.BitVecVal(0, W)    # `let mut idx = 0`
+            st.idx0_is_zero = True
             for line in pre:
                 step(st, line)
             guard = 0
